@@ -250,9 +250,11 @@ pub fn run_store(ch: &mut Chooser, ctx: &mut Ctx) {
     for s in 0..n_stripes {
         let fam = [Family::Default, Family::High, Family::Low][ch.weighted("stripe.fam", &[2, 1, 1])];
         let scale = ch.weighted("stripe.scale", &[80, 18, 2]) as u8;
-        let (k, r) = gen_counts(ch, fam, scale);
+        // one stripe in eighty consists of a few long shards (16 KiB .. 1 MiB)
+        let big = ch.chance("stripe.big", 1, 80);
+        let (k, r) = gen_counts(ch, fam, if big { 4 } else { scale });
         let high = envelope::effective_high(fam, k, r);
-        let b = gen_bytes(ch, if scale == 2 { 66 } else { 258 });
+        let b = if big { gen_bytes_big(ch) } else { gen_bytes(ch, if scale == 2 { 66 } else { 258 }) };
         let data_seed = ch.seed64("stripe.data");
         let data_mode = ch.weighted("stripe.datamode", &[8, 1, 1, 3, 3]) as u8;
         let originals: Vec<Vec<u8>> = (0..k).map(|i| gen_shard(data_seed, data_mode, i, b)).collect();
